@@ -46,7 +46,7 @@ PROPS["C04"] = coop("TestProp", "two parts. (a) queues: rapid-generated enqueue/
 PROPS["C04"]["assumptions"] = PROPS["C04"]["assumptions"] + ["queue part: reference models (slice, stable sort by (priority, arrival)) are correct"]
 
 PROPS["C19"] = {"engine": "race", "pkg": "vrace", "test": "TestC19", "replay_test": "TestReplay",
-                "shards": {"quick": 4, "thorough": 16}, "checks": {"quick": 40, "thorough": 400},
+                "shards": {"quick": 4, "thorough": 16}, "checks": {"quick": 60, "thorough": 500},
                 "wall": {"quick": 900, "thorough": 3300}, "level": "exploration",
                 "rule": "rapid generates client programs (2-5 real goroutines, all worker kinds, batches, cancel/purge, lifecycle calls from one goroutine, introspection from all); every program is executed 3 times on the real runtime under the race detector, with random yields inserted before library statements; evaluations = program executions; non-trivial = an execution in which >=2 client goroutines were running while a worker function executed; distinct = distinct (program, repetition)",
                 "assumptions": ["the Go race detector judges only the executions it sees", "a report counts if either stack has a frame in the module's library packages",
